@@ -67,7 +67,7 @@ CHECKS = {
         "execution over all PIN x PAN lengths with digit sweeps, supplied/absent fills and 2-/3-key TDES, AES-128/192/256 "
         "keys; ciphertexts checked against a from-scratch DES reference (AES: direct call of `cryptography`). In addition a SOURCE TIE: harness/pytrans.py translates the current Python text of Iso0PinBlock.to_bytes / from_bytes and Iso4PinBlock.to_bytes / from_bytes into Lean (Gen/Src.lean) on every run and lean/Cardutil/SrcTie/Pin.lean proves, for all inputs, that the translation equals the model (and restates the property for the translated code: C13_source_iso0, C13_source_iso4); when the source changes so that this no longer checks, the check runs its thorough generators (time-boxed) before answering (the correspondence remains the deciding tie).",
         "Trusted: Lean kernel; standard axioms; hand-written model validated by correspondence; refdes.py (FIPS KAT self-test); "
-        "AES from `cryptography`; D(E(x))=x is an explicit hypothesis; fill freshness observed, not proved.",
+        "AES from `cryptography`; for Triple DES D(E(x))=x is a theorem about Model/Des.lean (Lemmas/Des.lean tdesEcb_dec_enc; C13_tdes_iso0, C13_tdes_iso4) and the model's ciphertexts are compared with the implementation's on every run; for AES it remains an explicit hypothesis; fill freshness observed, not proved.",
         "DESIGN.md §8 C13"),
     'C14': (
         "Lean 4 theorems (TSP shape and definedness for all PIN lengths, decimalisation always four digits = two-scan spec, XOR combination order-independent and self-cancelling, text-level combine) generic in the cipher + behavioural correspondence + from-scratch DES reference",
@@ -77,7 +77,7 @@ CHECKS = {
         "as 32 hex digits (Props/C14.lean). Tied to /repo by differential execution with real keys found for second-scan "
         "classes 0..2(3), chosen ciphertexts through a cipher stub for classes 3..4, key-component lists, KCV and encrypted "
         "ZMK, all against a from-scratch DES/3DES reference. In addition a SOURCE TIE: harness/pytrans.py translates the current Python text of pinblock._get_tsp, the decimalisation at the end of calculate_pvv and the combination loop of key.get_zone_master_key (fragments around the cipher calls) into Lean (Gen/Src.lean) on every run and lean/Cardutil/SrcTie/Misc.lean and Pin.lean prove, for all inputs, that the translation equals the model (and restates the property for the translated code); when the source changes so that this no longer checks, the check runs its thorough generators before answering (the correspondence remains the deciding tie).",
-        "Trusted: as C13; the cipher stub replaces `Cipher` inside cardutil.pinblock only for the chosen-ciphertext cases.",
+        "Trusted: as C13 (the PVV and KCV values are now computed by the model with its own Triple DES — Model/Des.lean, C14_pvv_tdes — and compared with the implementation's); the cipher stub replaces `Cipher` inside cardutil.pinblock only for the chosen-ciphertext cases.",
         "DESIGN.md §8 C14"),
     'C15': (
         "Lean 4 theorems (check digit = unique Luhn digit; appended digit validates; validation = textbook validity; single-digit and adjacent-transposition detection by decomposition of the weighted sum + decide on digit tables) + behavioural correspondence in normal and -O interpreter modes",
